@@ -23,6 +23,7 @@ import (
 	apps "github.com/pingcap/advanced-statefulset/client/apis/apps/v1"
 	clientset "github.com/pingcap/advanced-statefulset/client/client/clientset/versioned"
 	statefulsetlisters "github.com/pingcap/advanced-statefulset/client/client/listers/apps/v1"
+	apiequality "k8s.io/apimachinery/pkg/api/equality"
 	metav1 "k8s.io/apimachinery/pkg/apis/meta/v1"
 	utilruntime "k8s.io/apimachinery/pkg/util/runtime"
 	"k8s.io/client-go/util/retry"
@@ -52,6 +53,8 @@ type realStatefulSetStatusUpdater struct {
 func (ssu *realStatefulSetStatusUpdater) UpdateStatefulSetStatus(
 	set *apps.StatefulSet,
 	status *apps.StatefulSetStatus) error {
+	// status was computed from the object as it is now
+	base := set.Status.DeepCopy()
 	// don't wait due to limited number of clients, but backoff after the default number of steps
 	return retry.RetryOnConflict(retry.DefaultRetry, func() error {
 		set.Status = *status
@@ -60,6 +63,12 @@ func (ssu *realStatefulSetStatusUpdater) UpdateStatefulSetStatus(
 			return nil
 		}
 		if updated, err := ssu.setLister.StatefulSets(set.Namespace).Get(set.Name); err == nil {
+			if !apiequality.Semantic.DeepEqual(updated.Status, *base) && !apiequality.Semantic.DeepEqual(updated.Status, *status) {
+				// somebody else has written a status since this one was computed: what was derived from
+				// the older object must not overwrite it (it could move currentRevision or
+				// observedGeneration backwards); fail and let the set be reconciled again
+				return fmt.Errorf("status of StatefulSet %s/%s changed while it was being updated: %v", set.Namespace, set.Name, updateErr)
+			}
 			// make a copy so we don't mutate the shared cache
 			set = updated.DeepCopy()
 		} else {
